@@ -42,6 +42,9 @@ import (
 	c "verifharness/common"
 )
 
+// probes whose request queued without reaching the probe point (see main)
+var probeMissed int
+
 const (
 	pushLine = "Sending request to be processed in queue"
 	lockWait = "<waiting for dpq.mutex>"
@@ -54,6 +57,7 @@ const (
 type Probe struct {
 	ID      int        `json:"id"`
 	Reached bool       `json:"reached"` // it stood on the trace line between decision and push
+	Queued  bool       `json:"queued,omitempty"` // not reached although its Enqueue took the queueing branch: the probe point is gone
 	Mutex   string     `json:"mutex,omitempty"` // while it stood there a reader of Counts(): "held" = blocked, "free" = got through
 	Inner   []ProbeObs `json:"inner,omitempty"`
 }
@@ -197,7 +201,12 @@ func (x *runner) doProbe(op Op, now int64, evFrom int) bool {
 		// no slow path (slot / refusal), or the line is not logged before the
 		// push: a plain Enqueue; the inner operations follow as ordinary ones
 		w.probe = false
-		x.finishEnq(w, op.Hold, tickHeld, "EnqLocked")
+		if ev := x.finishEnq(w, op.Hold, tickHeld, "EnqLocked"); !ev.Immediate {
+			// it went to the queue without standing on the line between decision and
+			// push: the line is gone or logged elsewhere, the suite cannot probe
+			pr.Queued = true
+			probeMissed++
+		}
 		x.endOp(evFrom)
 		for _, in := range op.Inner {
 			o := ProbeObs{K: in.K, ID: in.ID, Outcome: "skipped"}
